@@ -71,3 +71,41 @@ func Open(key, nonce, sealed, ad []byte) ([]byte, bool) {
 	}
 	return chacharef.XOR(key, nonce, 1, ct), true
 }
+
+// Tagger computes the §2.8 tag for growing prefixes ct[:n] of one ciphertext under a fixed
+// (one-time key, AD): the Poly1305 accumulation over AD and over the whole 16-byte blocks of
+// the ciphertext is carried along instead of being recomputed for every n. It is the same
+// definition evaluated incrementally (Horner's rule block by block).
+type Tagger struct {
+	pk       []byte
+	adLen    int
+	ct       []byte
+	run      *polyref.Acc // state after AD||pad and ct[:absorbed]
+	absorbed int
+}
+
+// NewTagger starts after absorbing AD || pad16(AD).
+func NewTagger(polyKey, ad, ct []byte) *Tagger {
+	a := polyref.NewAcc(polyKey)
+	a.Write(append(append([]byte(nil), ad...), pad16(len(ad))...))
+	return &Tagger{pk: polyKey, adLen: len(ad), ct: ct, run: a}
+}
+
+// Tag returns the tag for (AD, ct[:n]). n must not decrease between calls.
+func (t *Tagger) Tag(n int) [16]byte {
+	if n < t.absorbed || n > len(t.ct) {
+		panic("aeadref: Tagger.Tag: n out of order")
+	}
+	for t.absorbed+16 <= n {
+		t.run.Block(t.ct[t.absorbed : t.absorbed+16])
+		t.absorbed += 16
+	}
+	a := t.run.Clone()
+	if n > t.absorbed {
+		var last [16]byte // ct tail || zero padding: a full 16-byte block
+		copy(last[:], t.ct[t.absorbed:n])
+		a.Block(last[:])
+	}
+	a.Block(append(le64(t.adLen), le64(n)...))
+	return a.Tag(t.pk)
+}
